@@ -53,7 +53,10 @@ contract("usim._primitives.flag.Flag.__init__",
          params={"self": REF("Flag")},
          requires=["forall(Interrupt, lambda i: i.sub is not self)", "forall(InverseFlag, lambda f: f._event is not self)",
                    "forall(Notification, lambda n: n.lock is None or True)"],
-         ensures=["self._value == False", "len(self._waiting) == 0", "self._inverse._event is self", "len(self._inverse._waiting) == 0"],
+         ensures=["self._value == False", "len(self._waiting) == 0", "self._inverse._event is self", "len(self._inverse._waiting) == 0",
+                  "fresh_obj(self._inverse)",
+                  "forall(Notification, lambda n: implies(not fresh_obj(n) and n is not self, n._waiting == old(n._waiting)))",
+                  "forall(InverseFlag, lambda f: implies(not fresh_obj(f), f._event is old(f._event)))"],
          modifies=["Flag._value@self", "Flag._inverse@self", "Notification._waiting", "InverseFlag._event"],
          props=["C08"])
 
